@@ -49,7 +49,15 @@ func scenario(maxRetries int, rfIdx int, elapsed bool, cancelling bool) *explore
 			cancelAt = vs.Choose(maxRetries+1, 0, "cancel during attempt")
 		}
 		// the failures are plain errors, or application errors in the causer convention with nothing underneath
-		rootlessErrs := vs.Choose(2, 0, "shape of the handler's errors") == 1
+		// ... or errors that wrap context.Canceled / context.DeadlineExceeded although the message context is alive (a
+		// downstream call of the handler with a time limit of its own): failures like any other
+		errShape := 0
+		if !elapsed && !cancelling && maxRetries <= 3 {
+			errShape = vs.Choose(4, 0, "shape of the handler's errors")
+		} else if vs.Choose(2, 0, "shape of the handler's errors") == 1 {
+			errShape = 3
+		}
+		rootlessErrs := errShape == 1
 		var hooks []int
 		r := middleware.Retry{MaxRetries: maxRetries, InitialInterval: initial, MaxInterval: maxInt, Multiplier: mult,
 			RandomizationFactor: rf, MaxElapsedTime: maxElapsed,
@@ -75,6 +83,9 @@ func scenario(maxRetries int, rfIdx int, elapsed bool, cancelling bool) *explore
 				if rootlessErrs {
 					return hx.Outputs(m, 1), &rootlessErr{fmt.Sprintf("err%d", k)}
 				}
+				if errShape >= 2 {
+					return hx.Outputs(m, 1), &wrappingErr{fmt.Sprintf("err%d", k), []error{context.Canceled, context.DeadlineExceeded}[errShape-2]}
+				}
 				return hx.Outputs(m, 1), fmt.Errorf("err%d", k)
 			}
 			o := hx.Outputs(m, 1)
@@ -83,7 +94,7 @@ func scenario(maxRetries int, rfIdx int, elapsed bool, cancelling bool) *explore
 		})
 		out, err := h(msg)
 		returnedAt := vs.VirtualNow()
-		cfg := fmt.Sprintf("MaxRetries=%d Initial=%v Mult=%v MaxInterval=%v RF=%v MaxElapsed=%v attemptTakes=%v failures=%d cancelAt=%d rootlessErrors=%v", maxRetries, initial, mult, maxInt, rf, maxElapsed, attemptTakes, failures, cancelAt, rootlessErrs)
+		cfg := fmt.Sprintf("MaxRetries=%d Initial=%v Mult=%v MaxInterval=%v RF=%v MaxElapsed=%v attemptTakes=%v failures=%d cancelAt=%d errorShape=%s", maxRetries, initial, mult, maxInt, rf, maxElapsed, attemptTakes, failures, cancelAt, []string{"plain", "nothing underneath", "wraps context.Canceled", "wraps context.DeadlineExceeded"}[errShape])
 		calls := len(atts)
 		limit := 1 + maxRetries
 		if calls > limit {
@@ -267,3 +278,13 @@ type rootlessErr struct{ text string }
 func (e *rootlessErr) Error() string { return e.text }
 func (e *rootlessErr) Cause() error  { return nil }
 func (e *rootlessErr) Unwrap() error { return nil }
+
+// wrappingErr wraps another error (Unwrap and Cause) under a text of its own.
+type wrappingErr struct {
+	text  string
+	inner error
+}
+
+func (e *wrappingErr) Error() string { return e.text }
+func (e *wrappingErr) Unwrap() error { return e.inner }
+func (e *wrappingErr) Cause() error  { return e.inner }
